@@ -95,3 +95,21 @@ def m2():
         'max_apps': 4,
         'events': [],
     }
+
+
+def m4():
+    """One server, identity group of 2: re-placement lands on the same server."""
+    cfg = m1()
+    cfg['buckets'] = [('rack:0', None)]
+    cfg['servers'] = {
+        's0': {'parent': 'rack:0', 'variants': [
+            {'cap': ['10M', '10%', '10M']}, {'cap': ['8M', '8%', '8M']}]},
+    }
+    cfg['idgroups'] = {'g': 2}
+    cfg['templates'] = {
+        'id': {'memory': '2M', 'cpu': '2%', 'disk': '2M', 'affinity': 'b',
+               'identity_group': 'g'},
+        'ls': {'memory': '2M', 'cpu': '2%', 'disk': '2M', 'affinity': 'e',
+               'lease': '1d'},
+    }
+    return cfg
